@@ -274,6 +274,14 @@ static std::string op(const Toks& t) {
       auto mp = AttributesTools::parseOptions(static_cast<int>(argv.size()), argv.data());
       return "ok " + std::to_string(mp.size());
     }
+    if (o == "ap.vec") {         // ap.vec type text sep rangeOp   (ApplicationTools::getVectorParameter<T> with the range operator; searched)
+      std::map<std::string, std::string> params; params["v"] = hexToStr(t[2]);
+      char sep = chr(t[3]), rop = chr(t[4]);
+      if (t[1] == "i") return "ok " + std::to_string(ApplicationTools::getVectorParameter<int>("v", params, sep, rop, "", "", true, false).size());
+      if (t[1] == "u") return "ok " + std::to_string(ApplicationTools::getVectorParameter<size_t>("v", params, sep, rop, "", "", true, false).size());
+      if (t[1] == "d") return "ok " + std::to_string(ApplicationTools::getVectorParameter<double>("v", params, sep, rop, "", "", true, false).size());
+      return "bad-op";
+    }
     if (o == "dd.read") {
       // flag: bit 0 = parseArguments, bit 1 = verbose (the messages go to the null sink)
       const unsigned long flag = t.size() > 2 ? toU(t[2]) : 1;
